@@ -135,8 +135,9 @@ type minPromOperator struct {
 }
 
 func NewMinPromOperator() aggOperator {
+	// NaN = no value yet: Compute replaces a NaN by whatever comes first, so ±Inf and NaN-only groups keep their value
 	return &minPromOperator{
-		val: math.MaxFloat64,
+		val: math.NaN(),
 	}
 }
 
@@ -172,7 +173,7 @@ type maxPromOperator struct {
 
 func NewMaxPromOperator() aggOperator {
 	return &maxPromOperator{
-		val: -math.MaxFloat64,
+		val: math.NaN(),
 	}
 }
 
